@@ -49,6 +49,8 @@ def one_run(args):
             opt.search(f, n_iter=n_iter, memory=False, verbosity=False)
     except scen.StepTimeout:
         return dict(args=args, status="timeout")
+    except C.Infra:
+        raise
     except Exception as e:  # noqa
         import traceback
         tb = traceback.extract_tb(e.__traceback__)
